@@ -84,8 +84,9 @@ InitC11 == /\ prog = InitProg /\ facts = [f \in Fields |-> "abs"] /\ nops = 0 /\
 RQuery(g, d, strat) == /\ UNCHANGED <<prog, facts>>
                        /\ last' = [op |-> "pquery", gf |-> g[1], gv |-> g[2], depth |-> d, strat |-> strat, neg |-> FALSE, maxsol |-> 1, rete |-> TRUE]
 RRetract(k) == /\ UNCHANGED <<prog, facts>> /\ last' = [op |-> "rretract", k |-> k]
+(* "S" is the string "true": it prints like the boolean but satisfies neither comparison (a look-alike of another type) *)
 NextC11 == /\ nops' = nops + 1
-           /\ \/ \E f \in Fields, v \in Bools \cup {"abs"} : SetFact(f, v)
+           /\ \/ \E f \in Fields, v \in Bools \cup {"abs", "S"} : SetFact(f, v)
               \/ \E g \in Atoms, d \in Depths, s \in Strategies, ng \in BOOLEAN, ms \in MaxSols : PQuery(g, d, s, ng, ms)
               \/ \E g \in Atoms, d \in Depths : RQuery(g, d, "dfs")
               \/ \E k \in 1..2 : RRetract(k)
